@@ -47,6 +47,26 @@ def spec():
             good=[-1, -2], bad=[0, -3, None],
             vals=[-1, -2, 0, -3, 1, -0.5, None],
             ok=lambda v: isinstance(v, int) and -2.5 <= v <= -0.5),
+        "intmin": dict(
+            # only the lower bound declared
+            mk=lambda k, par, pr, d, ro: InputParameterInt(
+                k, "n", d, pr, parent=par, read_only=ro, min_value=1),
+            good=[1, 5, 10 ** 9], bad=[0, -3, 2.5, None],
+            vals=[1, 7, 0, -1, 10 ** 9, 2.5, "x", None],
+            ok=lambda v: isinstance(v, int) and v >= 1),
+        "intmax": dict(
+            # only the upper bound declared
+            mk=lambda k, par, pr, d, ro: InputParameterInt(
+                k, "n", d, pr, parent=par, read_only=ro, max_value=10),
+            good=[10, -5, -10 ** 9], bad=[11, 2.5, None],
+            vals=[10, 3, 11, -10 ** 9, 12, 2.5, "x", None],
+            ok=lambda v: isinstance(v, int) and v <= 10),
+        "floatmin": dict(
+            mk=lambda k, par, pr, d, ro: InputParameterFloat(
+                k, "n", d, pr, parent=par, read_only=ro, min_value=0.5),
+            good=[0.5, 3.0, 7], bad=[0.25, -1.0, "x", None],
+            vals=[0.5, 2.0, 0.25, -1.0, 1e300, "x", None],
+            ok=lambda v: isinstance(v, (int, float)) and v >= 0.5),
         "float": dict(
             mk=lambda k, par, pr, d, ro: InputParameterFloat(
                 k, "n", d, pr, parent=par, read_only=ro, min_value=0.0,
@@ -647,6 +667,20 @@ def move_family():
                                 hists.append(tuple(h) + (
                                     ("remove", p2 + (key,)),
                                     ("readd", 0, p1)))
+    # ties in insertion order after children were taken out: three or four
+    # children of equal priority, one or two taken out, new ones added
+    for kinds in (("int", "int", "int"), ("map", "int", "int")):
+        for pr in (1, 2):
+            for gone in ((0,), (0, 1), (1,), (1, 2), (0, 2)):
+                for newkeys in (("a",), ("b", "a"), ("c",)):
+                    h = [("create", (), kinds[i], KEYS[i], pr)
+                         for i in range(3)]
+                    h += [("remove", (KEYS[i],)) for i in gone]
+                    for k_ in newkeys:
+                        if KEYS.index(k_) in gone:
+                            h.append(("create", (), "int", k_, pr))
+                    if len(h) > 3 + len(gone):
+                        hists.append(tuple(h))
     n = 0
     viols = []
     for h in hists:
